@@ -318,11 +318,20 @@ func RunProperty(c *Ctx, prop *Property, findings []Finding, seed int, evidenceD
 		Assumptions: append(append([]string{}, TrustedBase...), prop.Assumptions...), Violations: len(viol)}
 	res.Evidence = ev
 	if len(c.Fatal) > 0 {
-		for _, f := range c.Fatal {
-			res.Lines = append(res.Lines, "CHECKER-FAILURE: property="+prop.ID+" "+f)
+		// an anchor that no longer resolves or a rule that matches fewer instances than confirmed by hand
+		// means the guard is no longer visible in the code where the rule expects it: reported as a
+		// violation (DESIGN.md section 3, "undecided"), never silently passed
+		for i, f := range c.Fatal {
+			path := filepath.Join(evidenceDir, fmt.Sprintf("%s.violation-u%d.json", prop.ID, i+1))
+			b, _ := json.MarshalIndent(map[string]any{"property": prop.ID, "undecided": f, "tier": c.Tier,
+				"how_to_read": "the rule could not find the construct it is written for (anchor unresolved or instance floor not met); the clause 'the guard is visible in the code' fails"}, "", " ")
+			os.WriteFile(path, b, 0o644)
+			res.Lines = append(res.Lines, fmt.Sprintf("VIOLATION property=%s replay=%s", prop.ID, path))
+			res.Lines = append(res.Lines, "  undecided: "+f)
 		}
-		cov["checker_failures"] = c.Fatal
-		res.Exit = 2
+		cov["undecided_anchors_or_floors"] = c.Fatal
+		ev.Violations += len(c.Fatal)
+		res.Exit = 1
 	}
 	if len(viol) > 0 {
 		sort.Slice(viol, func(i, j int) bool { return viol[i].Key() < viol[j].Key() })
